@@ -21,6 +21,7 @@
 #include <mm/auto_ckpt.h>
 #include <mm/msg_allocator.h>
 #include <serial/serial.h>
+#include <verif_hooks.h>
 
 /// The flag used in ScheduleNewEvent() to keep track of silent execution
 static __thread bool silent_processing = false;
@@ -44,6 +45,8 @@ void ScheduleNewEvent(lp_id_t receiver, simtime_t timestamp, unsigned event_type
 	}
 
 	if(unlikely(silent_processing))
+		VH(VH_SEND_MUTED, NULL, receiver, 0);
+	if(unlikely(silent_processing))
 		return;
 
 	struct lp_msg *msg = msg_allocator_pack(receiver, timestamp, event_type, payload, payload_size);
@@ -59,6 +62,7 @@ void ScheduleNewEvent(lp_id_t receiver, simtime_t timestamp, unsigned event_type
 #endif
 
 	nid_t dest_nid = lid_to_nid(receiver);
+	VH(VH_SEND, msg, dest_nid != nid, 0);
 	if(dest_nid != nid) {
 		mpi_remote_msg_send(msg, dest_nid);
 		array_push(current_lp->p.p_msgs, mark_msg_remote(msg));
@@ -79,6 +83,7 @@ static inline void checkpoint_take(struct lp_ctx *lp)
 {
 	timer_uint t = timer_hr_new();
 	model_allocator_checkpoint_take(&lp->mm_state, array_count(lp->p.p_msgs));
+	VH(VH_CKPT, lp, array_count(lp->p.p_msgs), 0);
 	stats_take(STATS_CKPT_SIZE, lp->mm_state.full_ckpt_size);
 	stats_take(STATS_CKPT, 1);
 	stats_take(STATS_CKPT_TIME, timer_hr_value(t));
@@ -103,6 +108,7 @@ void process_lp_init(struct lp_ctx *lp)
 	array_push(lp->p.p_msgs, msg);
 	model_allocator_checkpoint_next_force_full(&lp->mm_state);
 	checkpoint_take(lp);
+	VH(VH_LP_INIT_DONE, lp, 0, 0);
 }
 
 /**
@@ -111,14 +117,18 @@ void process_lp_init(struct lp_ctx *lp)
 void process_lp_fini(struct lp_ctx *lp)
 {
 	current_lp = lp;
+	VH(VH_LP_FINI, lp, 0, 0);
 	global_config.dispatcher(lp - lps, 0, LP_FINI, NULL, 0, lp->state_pointer);
 
 	for(array_count_t i = 0; i < array_count(lp->p.p_msgs); ++i) {
 		struct lp_msg *msg = array_get_at(lp->p.p_msgs, i);
 		if(is_msg_local_sent(msg))
+			VH(VH_FINI_HIST, msg, i, lp);
+		if(is_msg_local_sent(msg))
 			continue;
 
 		bool remote = is_msg_remote(msg);
+		VH(VH_FINI_HIST, msg, i, lp);
 		msg = unmark_msg(msg);
 		uint32_t flags = atomic_load_explicit(&msg->flags, memory_order_relaxed);
 		if(remote || !(flags & MSG_FLAG_ANTI))
@@ -142,6 +152,7 @@ static inline void silent_execution(const struct lp_ctx *lp, array_count_t last_
 
 	timer_uint t = timer_hr_new();
 	silent_processing = true;
+	VH(VH_SILENT_BEGIN, lp, last_i, past_i);
 
 	void *state_p = lp->state_pointer;
 	do {
@@ -149,11 +160,13 @@ static inline void silent_execution(const struct lp_ctx *lp, array_count_t last_
 		while(is_msg_sent(msg))
 			msg = array_get_at(lp->p.p_msgs, ++last_i);
 
+		VH(VH_SILENT, msg, last_i, 0);
 		global_config.dispatcher(msg->dest, msg->dest_t, msg->m_type, msg->pl, msg->pl_size, state_p);
 		stats_take(STATS_MSG_SILENT, 1);
 	} while(++last_i < past_i);
 
 	silent_processing = false;
+	VH(VH_SILENT_END, lp, 0, 0);
 	stats_take(STATS_MSG_SILENT_TIME, timer_hr_value(t));
 }
 
@@ -172,12 +185,14 @@ static inline void send_anti_messages(struct process_ctx *proc_p, array_count_t 
 			if(is_msg_remote(msg)) {
 				msg = unmark_msg_remote(msg);
 				nid_t dest_nid = lid_to_nid(msg->dest);
+				VH(VH_ANTI_REMOTE, msg, 0, 0);
 				mpi_remote_anti_msg_send(msg, dest_nid);
 				msg_allocator_free_at_gvt(msg);
 			} else {
 				msg = unmark_msg_sent(msg);
 				uint32_t f =
 				    atomic_fetch_add_explicit(&msg->flags, MSG_FLAG_ANTI, memory_order_relaxed);
+				VH(VH_ANTI_LOCAL, msg, f, 0);
 				if(f & MSG_FLAG_PROCESSED)
 					msg_queue_insert(msg);
 			}
@@ -187,6 +202,7 @@ static inline void send_anti_messages(struct process_ctx *proc_p, array_count_t 
 		}
 
 		uint32_t f = atomic_fetch_add_explicit(&msg->flags, -MSG_FLAG_PROCESSED, memory_order_relaxed);
+		VH(VH_UNDO, msg, f, 0);
 		if(!(f & MSG_FLAG_ANTI))
 			msg_queue_insert(msg);
 		stats_take(STATS_MSG_ROLLBACK, 1);
@@ -202,11 +218,13 @@ static inline void send_anti_messages(struct process_ctx *proc_p, array_count_t 
 static void do_rollback(struct lp_ctx *lp, array_count_t past_i)
 {
 	timer_uint t = timer_hr_new();
+	VH(VH_RB_BEGIN, lp, past_i, 0);
 	send_anti_messages(&lp->p, past_i);
 	array_count_t last_i = model_allocator_checkpoint_restore(&lp->mm_state, past_i);
 	stats_take(STATS_RECOVERY_TIME, timer_hr_value(t));
 	stats_take(STATS_ROLLBACK, 1);
 	silent_execution(lp, last_i, past_i);
+	VH(VH_RB_END, lp, past_i, last_i);
 }
 
 /**
@@ -264,6 +282,7 @@ static inline void handle_remote_anti_msg(struct lp_ctx *lp, struct lp_msg *a_ms
 	do {
 		if(unlikely(!i)) {
 			// Sadly this is an early remote anti-message
+			VH(VH_BRANCH, a_msg, VB_ANTI_REMOTE_EARLY, 0);
 			a_msg->next = lp->p.early_antis;
 			lp->p.early_antis = a_msg;
 			return;
@@ -279,6 +298,7 @@ static inline void handle_remote_anti_msg(struct lp_ctx *lp, struct lp_msg *a_ms
 		}
 	}
 
+	VH(VH_BRANCH, msg, VB_ANTI_REMOTE_FOUND, a_msg);
 	msg->raw_flags |= MSG_FLAG_ANTI;
 	do_rollback(lp, i);
 	termination_on_lp_rollback(lp, msg->dest_t);
@@ -299,6 +319,7 @@ static inline bool check_early_anti_messages(struct process_ctx *proc_p, struct 
 	struct lp_msg *a_msg = *prev_p;
 	do {
 		if(a_msg->raw_flags == m_id && a_msg->m_seq == m_seq) {
+			VH(VH_BRANCH, msg, VB_EARLY_MATCH, a_msg);
 			*prev_p = a_msg->next;
 			msg_allocator_free(msg);
 			msg_allocator_free(a_msg);
@@ -323,11 +344,14 @@ static void handle_anti_msg(struct lp_ctx *lp, struct lp_msg *msg, uint32_t last
 		auto_ckpt_register_bad(&lp->auto_ckpt);
 		return;
 	} else if(last_flags == (MSG_FLAG_ANTI | MSG_FLAG_PROCESSED)) {
+		VH(VH_BRANCH, msg, VB_ANTI_ROLLBACK, 0);
 		array_count_t past_i = match_anti_msg(&lp->p, msg);
 		do_rollback(lp, past_i);
 		termination_on_lp_rollback(lp, msg->dest_t);
 		auto_ckpt_register_bad(&lp->auto_ckpt);
 	}
+	if(last_flags == MSG_FLAG_ANTI)
+		VH(VH_BRANCH, msg, VB_ANTI_DROP, 0);
 	msg_allocator_free(msg);
 }
 
@@ -338,6 +362,7 @@ static void handle_anti_msg(struct lp_ctx *lp, struct lp_msg *msg, uint32_t last
  */
 static void handle_straggler_msg(struct lp_ctx *lp, struct lp_msg *msg)
 {
+	VH(VH_BRANCH, msg, VB_STRAGGLER, 0);
 	array_count_t past_i = match_straggler_msg(&lp->p, msg);
 	do_rollback(lp, past_i);
 	termination_on_lp_rollback(lp, msg->dest_t);
@@ -357,6 +382,7 @@ void process_msg(void)
 		return;
 	}
 
+	VH(VH_EXTRACT, msg, 0, 0);
 	gvt_on_msg_extraction(msg->dest_t);
 
 	struct lp_ctx *lp = &lps[msg->dest];
@@ -369,6 +395,7 @@ void process_msg(void)
 	}
 
 	uint32_t flags = atomic_fetch_add_explicit(&msg->flags, MSG_FLAG_PROCESSED, memory_order_relaxed);
+	VH(VH_PROC_FLAG, msg, flags, 0);
 	if(unlikely(flags & MSG_FLAG_ANTI)) {
 		handle_anti_msg(lp, msg, flags);
 		lp->p.bound = unlikely(array_is_empty(lp->p.p_msgs)) ? -1.0 : lp->p.bound;
@@ -385,9 +412,11 @@ void process_msg(void)
 	current_msg = msg;
 #endif
 
+	VH(VH_FWD_BEGIN, msg, lp, 0);
 	common_msg_process(lp, msg);
 	lp->p.bound = msg->dest_t;
 	array_push(lp->p.p_msgs, msg);
+	VH(VH_FWD_END, lp, msg, 0);
 
 	auto_ckpt_register_good(&lp->auto_ckpt);
 	if(auto_ckpt_is_needed(&lp->auto_ckpt))
